@@ -91,9 +91,17 @@ class C03(Property):
                 cases.append(self._from_string(rng, tier))
                 continue
             if r < 0.18 and rxns:
-                c = {'op': 'rxn_rate', 'rxn': rng.choice(rxns), 'vars': sysd['vars'], 'num': num,
+                c = {'op': 'rxn_rate', 'rxn': dict(rng.choice(rxns)), 'vars': sysd['vars'], 'num': num,
                      'keys': self._keys(rng, subst, allow_none=False), 'backend': self._backend(rng)}
-                self._maybe_drop_var(rng, c)
+                self._param_forms(rng, [c['rxn']], c, num)
+                m = rng.random()
+                if m < 0.08:
+                    c['vars'] = None                                  # Reaction.rate(variables=None)
+                    c['backend'] = None
+                elif m < 0.2 and c['rxn'].get('pform', 'plain') == 'plain':
+                    c['ratex_value'] = kg.rand_rat(rng, num)          # Reaction.rate(..., ratex=<number>)
+                if c['vars'] is not None:
+                    self._maybe_drop_var(rng, c)
             elif r < 0.62:
                 c = dict(sysd, op='sys_rates', keys=self._keys(rng, subst, allow_none=True), cstr=None, backend=self._backend(rng))
                 if rng.random() < 0.4:
@@ -105,6 +113,8 @@ class C03(Property):
                 c['perm'] = perm
                 if num == 'bigint' and rng.random() < 0.5:
                     c['backend'] = 'numpy'
+                c['rxns'] = [dict(x) for x in c['rxns']]
+                self._param_forms(rng, c['rxns'], c, num)
                 self._maybe_drop_var(rng, c)
             elif r < 0.8:
                 c = dict(sysd, op='array_path', keys=list(subst))
@@ -134,6 +144,21 @@ class C03(Property):
                 c = dict(small, op=None, kind='symbolic')
             cases.append(c)
         return cases
+
+    @staticmethod
+    def _param_forms(rng, specs, c, num):
+        """the forms of Reaction.param that rate_expr turns into mass action: number, MassAction([k]), object with as_RateExpr(),
+        string (named rate constant looked up in variables)"""
+        if rng.random() < 0.6:
+            return
+        for j, x in enumerate(specs):
+            f = rng.choice(['plain', 'massaction', 'convertible', 'key'])
+            if f == 'key':
+                x['pform'], x['pkey'] = 'key', 'k_%d' % j
+                if c['vars'] is not None and not any(k == x['pkey'] for k, _ in c['vars']):
+                    c['vars'] = c['vars'] + [[x['pkey'], x['param']]]
+            elif f != 'plain':
+                x['pform'] = f
 
     @staticmethod
     def _backend(rng):
@@ -340,6 +365,8 @@ class C03(Property):
         return list(keys)
 
     def _vars(self, c):
+        if c['vars'] is None:
+            return None
         return {k: kg.to_num(v, c['num']) for k, v in c['vars']}
 
     def _observe(self, rsys, c):
@@ -394,7 +421,8 @@ class C03(Property):
                 return ' | '.join(outs)
             if op == 'rxn_rate':
                 rxn = kg.mk_reaction(c['rxn'], num)
-                return _dict_line(rxn.rate(self._vars(c), kg.get_backend(c.get('backend')), substance_keys=c['keys']))
+                kw = {'ratex': kg.to_num(c['ratex_value'], num)} if c.get('ratex_value') is not None else {}
+                return _dict_line(rxn.rate(self._vars(c), kg.get_backend(c.get('backend')), substance_keys=c['keys'], **kw))
             if op == 'terms_rate':
                 from chempy import Reaction
                 rxn = Reaction.from_string(c['line'], list(c['subst']), checks=())
@@ -567,7 +595,7 @@ class C03(Property):
         return None
 
     def _needed_missing(self, specs, vars_, cstr=None):
-        need = [k for s in specs for k, _ in s['reac']]
+        need = [k for s in specs for k, _ in s['reac']] + [s['pkey'] for s in specs if s.get('pform') == 'key']
         if cstr:
             for sk, fck in cstr['fc']:
                 need += [cstr['fr'], fck, sk]
@@ -578,14 +606,19 @@ class C03(Property):
         spec = c['rxn']
         vars_ = self._vars(c)
         rxn = kg.mk_reaction(spec, num)
-        missing = self._needed_missing([spec], vars_)
+        if c.get('ratex_value') is not None:
+            x = kg.to_num(c['ratex_value'], num)
+            got = {k: kg.to_frac(v) for k, v in rxn.rate(vars_, substance_keys=c['keys'], ratex=x).items()}
+            want = {k: kg.net_of(spec, k) * kg.frac(c['ratex_value']) for k in c['keys']}
+            return None if got == want else 'Reaction.rate(ratex=%s): %s, expected ratex * net = %s' % (x, got, want)
+        missing = self._needed_missing([spec], vars_ or {})
         try:
             got = rxn.rate(vars_, kg.get_backend(c.get('backend')), substance_keys=c['keys'])
         except KeyError:
             return None if missing else 'Reaction.rate raised KeyError although every reactant has a concentration'
         if missing:
             return 'Reaction.rate used no value for %s but did not fail' % missing[0]
-        conc = {k: kg.to_frac(v) for k, v in vars_.items()}
+        conc = {k: kg.to_frac(v) for k, v in (vars_ or {}).items()}
         rate = kg.rate_of(spec, conc)
         want = {k: kg.net_of(spec, k) * rate for k in c['keys']}
         gotf = {k: kg.to_frac(v) for k, v in got.items()}
